@@ -37,6 +37,7 @@ MANIFEST = {
 }
 
 SM_CPP = "src/network/SessionManager.cpp"
+SM_HPP = "include/ephemeralnet/network/SessionManager.hpp"
 CHACHA_HPP = "include/ephemeralnet/crypto/ChaCha20.hpp"
 MIB = 1 << 20
 KEYS = ["000102030405060708090a0b0c0d0e0f101112131415161718191a1b1c1d1e1f",
@@ -175,6 +176,24 @@ def extract():
     else:
         before = i_check < i_alloc and i_check < i_body
 
+    # does send() hold the session's send lock around the frame write?
+    holds_lock = False
+    try:
+        hpp = _strip((REPO / SM_HPP).read_text(errors="replace"))
+    except Exception as ex:
+        hpp = ""
+        gaps.append(f"{SM_HPP}: {ex}")
+    msess = re.search(r"struct\s+Session\s*\{(.*?)\n\s*\};", hpp, flags=re.S)
+    has_member = bool(msess and re.search(r"std::(?:recursive_)?mutex\s+send_mutex\s*;", msess.group(1)))
+    mlock = re.search(r"std::(?:lock_guard|scoped_lock|unique_lock)\s*(?:<[^>;]*>)?\s+\w+\s*[({]\s*session->send_mutex\s*[)}]\s*;", send)
+    mwrite = re.search(r"send_all\s*\(\s*session->socket", send)
+    if not mwrite:
+        gaps.append("send: send_all(session->socket, …) not found")
+    elif has_member and mlock and mlock.start() < mwrite.start():
+        # the guard must still be in scope at the write: no closing brace of its block in between
+        between = send[mlock.end():mwrite.start()]
+        holds_lock = between.count("}") <= between.count("{")
+
     body = f"""/-- `kMaxPayloadSize` -/
 def kMaxPayloadSize : Nat := {vals.get('kMaxPayloadSize', MIB)}
 /-- `kNonceSize = sizeof(crypto::Nonce::bytes)` -/
@@ -196,7 +215,9 @@ def recvShifts : List Nat := [{', '.join(str(recv_shifts[i]) for i in sorted(rec
 /-- initial block counter passed to `ChaCha20::apply` in `send` -/
 def sendCounter : Nat := {send_counter}
 /-- initial block counter passed to `ChaCha20::apply` in `receive_loop` -/
-def recvCounter : Nat := {recv_counter}"""
+def recvCounter : Nat := {recv_counter}
+/-- `SessionManager::send` holds `session->send_mutex` (a member of `Session`) around `send_all(session->socket, …)` -/
+def sendHoldsSessionLock : Bool := {'true' if holds_lock else 'false'}"""
     write_generated(PID, body)
     return gaps
 
@@ -348,6 +369,30 @@ def case_wire(rng, sizes) -> Case:
     return Case(ops=ops, tag="wire")
 
 
+def case_concurrent(rng, weight: str) -> Case:
+    """several threads call send() for the same peer at once.  light: small payloads (cheap, checks the op end to end);
+    medium: 64-128 KiB payloads with a 4 KiB socket send buffer, where the kernel takes a frame in several pieces and an
+    unserialised writer interleaves (reproduces the missing send lock every time, < 1 MiB in total); heavy (thorough tier):
+    256 KiB-1 MiB payloads from up to 4 threads with the default buffers."""
+    ops = [f"open {rng.choice(KEYS)}"]
+    d = rng.choice(["ab", "ba"])
+    if rng.random() < 0.5:
+        ops += [f"send {d} {rng.choice(SMALL)} {rng.getrandbits(31)}", f"drain {d}"]
+    if weight == "light":
+        threads, count, n, buf = rng.choice([2, 3, 5]), rng.randint(1, 6), rng.choice([8, 64, 1000, 5000, 20000]), rng.choice([0, 2048, 4096])
+    elif weight == "medium":
+        threads, n = rng.choice([(2, 65536), (2, 131072), (3, 65536), (4, 65536), (2, 100000)])
+        count = max(2, min(4, 786432 // (threads * n)))
+        buf = 4096
+    else:
+        threads, count, n, buf = rng.choice([(4, 4, 262144, 0), (2, 2, MIB, 0), (4, 2, 524288, 0), (3, 4, 262144, 4096), (2, 3, MIB - 1, 4096)])
+    ops.append(f"csend {d} {threads} {count} {n} {rng.getrandbits(24)} {buf}")
+    ops.append(f"cdrain {d} 8000")
+    if rng.random() < 0.5:      # the session must still be usable afterwards
+        ops += [f"send {d} {rng.choice(SMALL)} {rng.getrandbits(31)}", f"drain {d}"]
+    return Case(ops=ops, tag="concurrent-" + weight)
+
+
 def case_mixed(rng) -> Case:
     ops = [f"open {rng.choice(KEYS)}", "rawopen"]
     for _ in range(rng.randint(4, 12)):
@@ -374,13 +419,19 @@ def generate(ctx, budget):
         cases.append(case_limit(rng, b))
     cases.append(case_burst(rng, 200))
     cases.append(case_wire(rng, [0, 1, 63, 64, 65, 1000]))
+    for _ in range(3 if not thorough else 30):
+        cases.append(case_concurrent(rng, "medium"))
+    if thorough:
+        for _ in range(5):
+            cases.append(case_concurrent(rng, "heavy"))
     if thorough:
         cases.append(case_wire(rng, [MIB, 65536]))
         cases.append(Case(ops=[f"open {KEYS[0]}", "rawopen", f"rawframe {rnonce(rng)} auto {MIB} 77 0",
                                f"rawframe {rnonce(rng)} {MIB + 1} 3 78 0", "rawended 8000", "rawclose"], tag="raw-big"))
     makers = [(case_sizes, 20), (lambda r: case_limit(r, None), 10), (lambda r: case_burst(r, r.choice([2, 17, 64, 200])), 8),
               (case_raw_valid, 14), (case_raw_oversize, 14), (case_raw_boundary, 4), (case_raw_short, 8), (case_raw_garbage, 8),
-              (lambda r: case_wire(r, SMALL[:22] + [rng.randint(0, 5000)]), 10), (case_mixed, 8)]
+              (lambda r: case_wire(r, SMALL[:22] + [rng.randint(0, 5000)]), 10), (case_mixed, 8),
+              (lambda r: case_concurrent(r, "light"), 10)]
     total = sum(w for _, w in makers)
     while len(cases) < budget:
         x = rng.random() * total
@@ -396,7 +447,7 @@ def nontrivial(r: CaseResult) -> bool:
     """a case counts when the implementation delivered at least one payload that the specification compared, or refused a
     send, or ended a session"""
     for op, o in zip(r.case.ops, r.impl):
-        if (op.startswith("drain") or op == "rawclose") and re.match(r"n=[1-9]", o):
+        if (op.startswith(("drain", "cdrain")) or op == "rawclose") and re.match(r"n=[1-9]", o):
             return True
         if o in ("refused", "ended") or o.startswith("nonce="):
             return True
@@ -414,6 +465,10 @@ def post(ctx, results):
                 ctx.hist("send:" + ("=1MiB" if n == MIB else ">1MiB" if n > MIB else "<1MiB") + ":" + o)
             elif t[0] == "rawended":
                 ctx.hist("rawended:" + o)
+            elif t[0] == "csend":
+                ctx.hist(f"csend:{t[2]}threads:" + ("<64KiB" if int(t[4]) < 65536 else "<256KiB" if int(t[4]) < 262144 else ">=256KiB"))
+            elif t[0] == "cdrain":
+                ctx.hist("cdrain:" + ("complete" if re.match(r"n=\d+( t\d+=[\d,-]+)+ unknown=0$", o) else "incomplete"))
             elif t[0] in ("drain", "rawclose"):
                 m = re.match(r"n=(\d+)", o)
                 ctx.hist(f"{t[0]}:" + ("timeout" if not m else "n=0" if m.group(1) == "0" else "n>0"))
@@ -448,13 +503,16 @@ def spec() -> Spec:
              "127..129,255..257,4095..4097,16 KiB,64 KiB±1, 2^20-65..2^20 (accepted) and 2^20+1.. (refused) in both directions; bursts "
              "of 2..200 sends; raw peer injecting valid frames in pieces of 1..64 bytes, headers announcing 2^20+1..2^32-1 (session must "
              "end), exactly 2^20 with a short body (must stay up), truncated headers/bodies, random bytes; wire capture of A's frames "
-             "(nonce, length field, ciphertext) with the nonce passed to the Lean side as a hint. distinct = sha256 of the op list; "
+             "(nonce, length field, ciphertext) with the nonce passed to the Lean side as a hint; 2-5 threads sending 1-6 payloads "
+             "each to one peer at the same time (8 B..20 KB cheap; 64-128 KiB with a 4 KiB SO_SNDBUF, where unserialised writers "
+             "interleave; thorough: 256 KiB-1 MiB from up to 4 threads with default buffers), judged by multiset equality and "
+             "per-thread order. distinct = sha256 of the op list; "
              "non-trivial = at least one payload delivered and compared, or a send refused, or a session ended, or a frame captured",
         trusted_base=["kernel TCP (loopback), std::thread scheduling, std::random_device (nonces taken from the implementation as hints)",
                       "marker-frame quiescence: a drain sends one more frame through the code under test and waits (bounded 30 s) for it",
                       "ChaCha20::apply = RFC 8439 (C09); here re-checked on every captured frame against Spec.chacha20"],
-        assumptions=["one sending thread per direction (concurrent sends to one peer are outside what is proved: C36)",
-                     "real-time bounds in the harness (5 s for a session to come up or end, 30 s for a marker) are generous enough on the "
+        assumptions=[
+"real-time bounds in the harness (5 s for a session to come up or end, 30 s for a marker) are generous enough on the "
                      "machine the check runs on; a timeout shows up as a `timeout`/`open` line and is judged by the monitor"],
     )
 
